@@ -423,8 +423,15 @@ func drvDotLocal(r *rand.Rand, n int) [][]Action {
 // interleavings of renders, fragment renders, additions and late hints
 func drvHistory(r *rand.Rand, n int, lateHints bool) [][]Action {
 	out := [][]Action{}
-	paths := []string{"x/d", "y/d", "z/d", "fmt", "x/fmt", "math/rand", "crypto/rand", "q/go", "C"}
+	allPaths := []string{"x/d", "y/d", "z/d", "fmt", "x/fmt", "math/rand", "crypto/rand", "q/go", "C"}
 	for i := 0; i < n; i++ {
+		paths := allPaths
+		switch i % 4 {
+		case 1: // few paths, one base name: the same path is hinted, made anonymous, referenced and rendered again and again
+			paths = []string{"x/d", "y/d"}
+		case 2:
+			paths = []string{"x/d", "z/d1", "fmt"}
+		}
 		st := &symtab{}
 		h := []Action{newAct("", []string{"", "pkg"}[r.Intn(2)])}
 		referenced := map[string]bool{}
@@ -452,7 +459,7 @@ func drvHistory(r *rand.Rand, n int, lateHints bool) [][]Action {
 				}
 			case 4:
 				if lateHints || !referenced[p] {
-					h = append(h, Action{A: "ImportAlias", P: p, N: []string{"d", "q", ".", "fmt"}[r.Intn(4)]})
+					h = append(h, Action{A: "ImportAlias", P: p, N: []string{"d", "q", ".", "fmt", "d1", "bar"}[r.Intn(6)]})
 				}
 			case 5:
 				if !referenced[p] && !bodyRefs(h, p) {
